@@ -200,7 +200,7 @@ fn main() {
                 sim.apply(s);
             }
         }
-        let ev = eval_process_crashes(&exe, &scratch, history, &rec, false);
+        let ev = eval_process_crashes(&exe, &scratch, history, &rec, true);
         // ---- tie #2: the model's `recover` on the symbolic twin of every distinct image
         let preds: Option<Vec<String>> = drv.as_mut().map(|d| {
             let mut ask = |q: &str| d.ask(q);
